@@ -31,4 +31,20 @@ PROPS = {
         explanation='Theorem C31_checker_sound (all inputs): an answer accepted by lev_check is a valid, minimal edit '
                     'script. The run applies the extracted lev_check to the real Recovery::levenshtein_distance output.',
     ),
+    'C08': dict(
+        level='proof',
+        level_text='Rocq theorems about a faithful model of LookaheadDFA::eval (outer loop over k tokens, sorted-array scan with '
+                   'early exits, last-accepting fallback): a prediction is only made on a contiguous prefix of the buffer that is a '
+                   'lookahead string of the predicted production, an error only if no prefix is (C08_eval_exact, C08_eval_error_exact, '
+                   'C08_scan_is_step), for all sorted well-formed automata and all buffers. Tie to the code: extracted eval_check '
+                   '(proved sound) applied to the real eval on random tries and valid/mutated/random buffers through the real TokenStream.',
+        level_note='Trusted: Coq kernel, extraction, OCaml driver, Rust harness (alphabet scanner built with scnr2::scanner!). The theorems are '
+                   'about the model; conformance of the Rust to the checker on all inputs is tested. Automata that are unsorted are skipped.',
+        technique='Rocq proof (induction over the lookahead walk; sortedness lemma) + checker-style correspondence via extraction',
+        streams=[dict(cmd='c08', quick=4000, thorough=120000)],
+        rule='random trie automata (1-8 lookahead strings over <=5 terminals + EOI, 1 in 5 not prefix-free), buffers = a lookahead string / '
+             'a one-edit mutation / random tokens, stream k = depth (+1..2 in 1 of 4); non-trivial = the buffer follows the automaton for >=1 '
+             'token and then leaves it before depth is reached; distinct = distinct case text',
+        explanation='C08_checker_sound: eval_check accepted => the answer is exact. D2 (unmatched token skipped) was repaired by a fix: commit.',
+    ),
 }
